@@ -123,12 +123,14 @@ fn created_message(ctx: &mut Ctx, pool: &PoolSigner, rng: &mut Rng, i: u64) {
     let ee_key = 3 + (i % 3) as usize;
     pool.set_next_one_off(ee_key);
     let which = i % 4;
+    let mut requested: Option<(i64, i64)> = None;
     // 0/1: SignedMessage::create with a chosen validity, 2: ProvisioningCms, 3: PublicationCms
     let (bytes, entry): (Vec<u8>, Entry) = match which {
         0 | 1 => {
             let nb = T0 + rng.range(0, 1_000_000) as i64 - 500_000;
             let len = *rng.pick(&[1i64, 2, 60, 600, 86_400, 400 * 86_400]);
             let validity = Validity::new(time(nb), time(nb + len));
+            requested = Some((nb, nb + len));
             let n = rng.usize_below(300);
             let data = Bytes::from(rng.bytes(n));
             let m = match ctx.no_panic("SignedMessage::create", || json!({"i": i}), || SignedMessage::create(data, validity, &issuer, pool)) {
@@ -189,8 +191,15 @@ fn created_message(ctx: &mut Ctx, pool: &PoolSigner, rng: &mut Rng, i: u64) {
             return;
         }
     };
-    let lo = nb.max(tu);
-    let hi = na.min(nu);
+    // "Messages created by the library validate for every time within their
+    // validity": the validity of a created message is the window it was asked
+    // for, which the library puts on the embedded EE certificate. The window
+    // of the embedded CRL is the library's own choice and must not narrow it,
+    // so it is deliberately NOT part of the expectation.
+    let (lo, hi) = requested.unwrap_or((nb, na));
+    if tu > nb || nu < na {
+        ctx.obs("created:crl-window-narrower-than-ee-window", 1);
+    }
     let mut times = vec![nb - 1, nb, nb + 1, na - 1, na, na + 1, tu - 1, tu, nu, nu + 1, lo + (hi - lo) / 2];
     if hi > lo {
         times.push(lo + (rng.next_u64() % (hi - lo + 1) as u64) as i64);
